@@ -90,8 +90,10 @@ func (root *Root) ResolveExecutable(
 		for _, vd := range op.Variables {
 			opVars[vd.Name] = vd.Default
 			if vars != nil {
-				if v := vars[vd.Name]; v != nil {
-					if ic, _ := vd.Type.(InCoercer); ic != nil { // validated in SDL validation
+				// A variable explicitly set to null takes precedence over
+				// the default just like any other value.
+				if v, has := vars[vd.Name]; has {
+					if ic, _ := vd.Type.(InCoercer); ic != nil && v != nil { // validated in SDL validation
 						v, err = ic.CoerceIn(v)
 					}
 					if err != nil {
